@@ -19,6 +19,9 @@ type op struct {
 	J int    `json:"j"`
 	N int    `json:"n"`
 	X string `json:"x"`
+	// operands of a tuple assignment (Tuple); Ss[0] is the value appended by AppendN(LL)
+	Ds []place `json:"ds"`
+	Ss []place `json:"ss"`
 	// Rw: render the operation in its neutralised form (through a temporary); set only when a
 	// deviating history is tested for attribution to a construct-shaped known finding
 	Rw bool `json:"rw,omitempty"`
@@ -399,6 +402,29 @@ func stmt(o op) string {
 			return fmt.Sprintf("{\n\tx := %s\n\t%s = func() int {\n\t\tx.N += 5\n\t\tif len(x.L) > 0 {\n\t\t\tx.L[0] += 1\n\t\t}\n\t\treturn x.N*3 + x.A[0]\n\t}\n}\ndump(v)\n", S, D)
 		}
 		return fmt.Sprintf("{\n\tx := %s\n\t%s = func() int {\n\t\tx[0] += 5\n\t\treturn x[0]\n\t}\n}\ndump(v)\n", S, D)
+	case "AppendN":
+		vals := make([]string, o.N)
+		for x := range vals {
+			if o.X == "L" {
+				vals[x] = fmt.Sprint(o.V + x)
+			} else {
+				vals[x] = o.Ss[0].expr()
+			}
+		}
+		return fmt.Sprintf("%s = append(%s, %s)\ndump(v)\n", D, S, strings.Join(vals, ", "))
+	case "Tuple":
+		var l, r []string
+		for x := range o.Ds {
+			l = append(l, o.Ds[x].expr())
+			if o.Ss[x].R == "" {
+				r = append(r, fmt.Sprint(o.V))
+			} else {
+				r = append(r, o.Ss[x].expr())
+			}
+		}
+		return fmt.Sprintf("%s = %s\ndump(v)\n", strings.Join(l, ", "), strings.Join(r, ", "))
+	case "MapTuple":
+		return fmt.Sprintf("%s[\"x\"], %s[\"y\"] = %s[\"y\"], %s[\"x\"]\ndump(v)\n", D, D, S, S)
 	case "CallFunc":
 		return fmt.Sprintf("{\n\tr := %s()\n\tdump(v, r)\n}\n", D)
 	case "Box":
